@@ -35,6 +35,9 @@ type pomOpt struct {
 	// RelPath: how <parent> names its local parent: 0 no <relativePath> (default ../pom.xml), 1 explicit
 	// ../pom.xml, 2 the directory (..)
 	RelPath int
+	// AtRoot: the child pom.xml sits at the ROOT of the file system the reader sees; its local parent is in
+	// the sub-directory parent/ (explicit <relativePath>parent/pom.xml</relativePath>), the grandparent in parent/gp/
+	AtRoot bool
 	// Inherit: which of its own coordinates the local parent (which itself has a <parent>) leaves out and
 	// inherits from the grandparent (org.gpar:gpar:7): 0 none, 1 <version>, 2 <groupId>, 3 both
 	Inherit int
@@ -74,6 +77,9 @@ func (o pomOpt) valid() bool {
 		return false
 	}
 	if o.Inherit > 0 && o.Parent < 2 {
+		return false
+	}
+	if o.AtRoot && (o.Parent == 0 || o.RelPath > 0) {
 		return false
 	}
 	if o.Dup > 0 && (o.PropKind == 0 || o.PropInMgmt || (o.Dup == 2 && o.Profile == 0) || (o.Dup == 3 && !o.Plugin)) {
@@ -227,6 +233,9 @@ func (o pomOpt) render() (map[string]string, []string) {
 		w.leaf("groupId", pg)
 		w.leaf("artifactId", "par")
 		w.leaf("version", pv)
+		if o.AtRoot {
+			w.leaf("relativePath", "parent/pom.xml")
+		}
 		relPath(w, o.RelPath)
 		w.close("parent")
 	}
@@ -380,6 +389,9 @@ func (o pomOpt) render() (map[string]string, []string) {
 			w.leaf("groupId", "org.gpar")
 			w.leaf("artifactId", "gpar")
 			w.leaf("version", "7")
+			if o.AtRoot {
+				w.leaf("relativePath", "gp/pom.xml")
+			}
 			relPath(w, o.RelPath)
 			w.close("parent")
 		}
@@ -438,6 +450,17 @@ func (o pomOpt) render() (map[string]string, []string) {
 		w.close("dependencyManagement")
 		w.close("project")
 		files[grandPath] = w.b.String()
+	}
+	if o.AtRoot {
+		ren := map[string]string{childPath: "pom.xml", parentPath: "parent/pom.xml", grandPath: "parent/gp/pom.xml"}
+		nf := map[string]string{}
+		for k, v := range files {
+			nf[ren[k]] = v
+		}
+		for i := range chain {
+			chain[i] = ren[chain[i]]
+		}
+		files = nf
 	}
 	return files, chain
 }
@@ -523,6 +546,15 @@ func genPomDocs(thorough bool) []*pomDoc {
 			}
 		}
 	}
+	// Family P: placement: the manifest at the root of the file system, local parents below it
+	for par := 1; par <= 2; par++ {
+		for _, pp := range bools {
+			add("at-root", pomOpt{Parent: par, Deps: true, ParentProp: pp, AtRoot: true}, 2, 1)
+			if thorough {
+				add("at-root", pomOpt{Parent: par, Deps: true, Mgmt: true, PropKind: 1, Profile: 1, ParentProp: pp, AtRoot: true}, 2, 1)
+			}
+		}
+	}
 	// Family B: local parent / grandparent x reduced child (quick) or full child (thorough)
 	pks := []int{0, 1, 2}
 	pfs := []int{0, 1}
@@ -580,7 +612,7 @@ func genPomDocs(thorough bool) []*pomDoc {
 
 func (o pomOpt) weight() int {
 	w := o.Parent * 10
-	for _, b := range []bool{o.Deps, o.Mgmt, o.PropKind > 0, o.PropInMgmt, o.Shared, o.Profile > 0, o.Profile > 1, o.Plugin, o.ParentProp, o.Dup > 0, o.RelPath > 0, o.Inherit > 0, o.NoVer > 0, o.Comments, o.CDATA, o.PI, o.NS, o.NestedAttr, o.VerDecor} {
+	for _, b := range []bool{o.Deps, o.Mgmt, o.PropKind > 0, o.PropInMgmt, o.Shared, o.Profile > 0, o.Profile > 1, o.Plugin, o.ParentProp, o.Dup > 0, o.RelPath > 0, o.AtRoot, o.Inherit > 0, o.NoVer > 0, o.Comments, o.CDATA, o.PI, o.NS, o.NestedAttr, o.VerDecor} {
 		if b {
 			w++
 		}
